@@ -728,3 +728,119 @@ func init() {
 		panic(pathEnd{kind: "unsupported", msg: "pubsub query matching (reflect/regexp/float parsing over strings)"})
 	})
 }
+
+func init() {
+	// gogoproto generic entry points dispatch to the generated (plain Go) methods
+	for _, pkg := range []string{"github.com/gogo/protobuf/proto", "github.com/golang/protobuf/proto"} {
+		reg(pkg+".Marshal", func(m *Machine, fr *frame, a []Value) Value {
+			msg := a[0].(Iface)
+			if msg.T == nil {
+				return Tuple{Slice(nil), m.mkError("proto: Marshal called with nil")}
+			}
+			if p, ok := msg.V.(*Value); ok && p == nil {
+				return Tuple{Slice(nil), m.mkError("proto: Marshal called with nil")}
+			}
+			r, ok := m.callMethod(fr, msg, "Marshal")
+			if !ok {
+				panic(pathEnd{kind: "unsupported", msg: "proto.Marshal of a type without generated Marshal: " + msg.T.String()})
+			}
+			return r
+		})
+		reg(pkg+".Unmarshal", func(m *Machine, fr *frame, a []Value) Value {
+			msg := a[1].(Iface)
+			m.callMethod(fr, msg, "Reset")
+			r, ok := m.callMethod(fr, msg, "Unmarshal", a[0])
+			if !ok {
+				panic(pathEnd{kind: "unsupported", msg: "proto.Unmarshal of a type without generated Unmarshal: " + msg.T.String()})
+			}
+			return r
+		})
+		reg(pkg+".Size", func(m *Machine, fr *frame, a []Value) Value {
+			r, ok := m.callMethod(fr, a[0].(Iface), "Size")
+			if !ok {
+				panic(pathEnd{kind: "unsupported", msg: "proto.Size without generated Size"})
+			}
+			return r
+		})
+		reg(pkg+".Equal", func(m *Machine, fr *frame, a []Value) Value {
+			x, y := a[0].(Iface), a[1].(Iface)
+			if x.T == nil || y.T == nil {
+				return x.T == nil && y.T == nil
+			}
+			if !types.Identical(x.T, y.T) {
+				return false
+			}
+			return m.deepEqual(x.V, y.V, 0)
+		})
+	}
+}
+
+func (m *Machine) mkError(msg string) Value {
+	errPkg := m.prog.ImportedPackage("errors")
+	et := errPkg.Type("errorString").Type()
+	cell := new(Value)
+	*cell = Struct{msg}
+	return Iface{T: types.NewPointer(et), V: cell}
+}
+
+// deepEqual: structural equality through pointers and slices (proto.Equal semantics: nil and empty
+// byte slices are equal); yields a Boolean term when leaves are symbolic.
+func (m *Machine) deepEqual(x, y Value, depth int) Value {
+	if depth > 24 {
+		panic(pathEnd{kind: "unsupported", msg: "deepEqual: too deep"})
+	}
+	switch a := x.(type) {
+	case *Value:
+		b := y.(*Value)
+		if a == nil || b == nil {
+			return a == b
+		}
+		return m.deepEqual(*a, *b, depth+1)
+	case Struct:
+		b := y.(Struct)
+		var r Value = true
+		for i := range a {
+			r = m.and(r, m.deepEqual(a[i], b[i], depth+1))
+			if r == false {
+				return false
+			}
+		}
+		return r
+	case Array:
+		b := y.(Array)
+		var r Value = true
+		for i := range a {
+			r = m.and(r, m.deepEqual(a[i], b[i], depth+1))
+		}
+		return r
+	case Slice:
+		b := y.(Slice)
+		if len(a) != len(b) {
+			return false
+		}
+		var r Value = true
+		for i := range a {
+			r = m.and(r, m.deepEqual(a[i], b[i], depth+1))
+			if r == false {
+				return false
+			}
+		}
+		return r
+	case Iface:
+		b := y.(Iface)
+		if a.T == nil || b.T == nil {
+			return a.T == nil && b.T == nil
+		}
+		if !types.Identical(a.T, b.T) {
+			return false
+		}
+		return m.deepEqual(a.V, b.V, depth+1)
+	case *Map:
+		b := y.(*Map)
+		if a == nil || b == nil {
+			return (a == nil || a.live == 0) && (b == nil || b.live == 0)
+		}
+		panic(pathEnd{kind: "unsupported", msg: "deepEqual of maps"})
+	}
+	return m.eqVal(x, y)
+}
